@@ -258,10 +258,16 @@ func (t *Transport) readMessage(obj ProtocolObject, maxLen uint64) error {
 	} else if maxLen > math.MaxInt64-8 {
 		maxLen = math.MaxInt64 - 8 // the reader's bound is an int64
 	}
-	d := types.NewDecoder(io.LimitedReader{R: t.conn, N: int64(8 + maxLen)})
+	cr := &countingReader{r: t.conn}
+	d := types.NewDecoder(io.LimitedReader{R: cr, N: int64(8 + maxLen)})
 	msgSize := d.ReadUint64()
 	if d.Err() != nil {
-		t.setErr(d.Err())
+		if cr.n > 0 {
+			// part of the length prefix has been consumed
+			t.setFatal(d.Err())
+		} else {
+			t.setErr(d.Err())
+		}
 		return d.Err()
 	} else if msgSize > maxLen {
 		// the stream cannot be resynchronized after a bad length prefix
@@ -295,6 +301,17 @@ func (t *Transport) readMessage(obj ProtocolObject, maxLen uint64) error {
 	d = types.NewBufDecoder(plaintext)
 	obj.DecodeFrom(d)
 	return d.Err()
+}
+
+type countingReader struct {
+	r io.Reader
+	n int
+}
+
+func (cr *countingReader) Read(p []byte) (int, error) {
+	n, err := cr.r.Read(p)
+	cr.n += n
+	return n, err
 }
 
 // WriteRequest sends an encrypted RPC request, comprising an RPC ID and a
@@ -454,10 +471,12 @@ func (t *Transport) RawResponse(maxLen uint64) (*ResponseReader, error) {
 			R: io.TeeReader(io.LimitReader(t.conn, int64(msgSize)), mac),
 			S: c,
 		},
-		tagR:   io.LimitReader(t.conn, poly1305.TagSize),
-		mac:    mac,
-		clen:   msgSize,
-		setErr: t.setErr,
+		tagR: io.LimitReader(t.conn, poly1305.TagSize),
+		mac:  mac,
+		clen: msgSize,
+		// the length prefix has been consumed: any error while streaming the
+		// rest of the frame, a timeout included, is fatal
+		setErr: t.setFatal,
 	}
 
 	// check if response is an RPCError
